@@ -125,7 +125,37 @@ def _manifest(data, rename=None):
     return txt.encode()
 
 
-def _copy_tree(src_root, dst_root, rename=None, hooks=None, crate=None, repo_rel=None, hooked=None):
+# Explicit enum tags in the verification build.  rustc lays out `Value`, `ValueKind`, `Matrix<T>`, the instruction enums and
+# `FeatureFlag` with *niche-encoded* discriminants (the tag of `Value` lives in an unused range of the tag byte of the
+# `Matrix<T>` it may contain, ...).  CBMC's symbolic execution folds such a discriminant to a constant when the enum is a
+# stack object but not when it is read back from a heap allocation (`Box<Value>`, `Vec<Value>`, `Ref<Value>`,
+# `Vec<DecodedInstr>`): every `match` on a heap-resident value then walks all ~60 variants, including the recursive
+# clone / drop / hash / eq glue, and the harness never reaches the solver (measured on a 6-variant toy enum: 0.04 s with
+# an explicit tag, no verdict in 300 s with the niche layout).  `#[cfg_attr(kani, repr(u8))]` is added to the *scratch
+# copies* of these definitions; it changes nothing but the position of the tag, which safe code cannot observe, and none of
+# the crates transmutes or pointer-casts these enums.  It is part of every claim (evidence: "enum_layout").
+REPR_PATCH = {
+    ("core", "src/value.rs"): ["pub enum Value {", "pub enum ValueKind {"],
+    ("core", "src/structures/matrix.rs"): ["pub enum Matrix<T> {"],
+    ("core", "src/program/compiler/sections.rs"): ["pub enum FeatureFlag {", "pub enum EncodedInstr {"],
+    ("core", "src/program/program.rs"): ["pub enum DecodedInstr {"],
+}
+
+
+def _repr_patch(crate, relp, data):
+    items = REPR_PATCH.get((crate, relp))
+    if not items:
+        return data
+    nl = b"\r\n" if b"\r\n" in data else b"\n"
+    for it in items:
+        b = it.encode()
+        if data.count(b) != 1:
+            raise SystemExit("INCONCLUSIVE: enum definition `%s` not found exactly once in %s/%s" % (it, crate, relp))
+        data = data.replace(b, b"#[cfg_attr(kani, repr(u8))]" + nl + b)
+    return data
+
+
+def _copy_tree(src_root, dst_root, rename=None, hooks=None, crate=None, repo_rel=None, hooked=None, member=None):
     changed = 0
     seen = set()
     for dirpath, dirnames, filenames in os.walk(src_root):
@@ -139,9 +169,12 @@ def _copy_tree(src_root, dst_root, rename=None, hooks=None, crate=None, repo_rel
                 data = f.read()
             if relp == "Cargo.toml":
                 data = _manifest(data, rename)
-            if hooks and relp in hooks:
-                if hooked is not None:
-                    hooked["%s/%s" % (repo_rel, relp)] = hashlib.sha256(data).hexdigest()
+            is_hook = bool(hooks and relp in hooks)
+            if is_hook and hooked is not None:
+                hooked["%s/%s" % (repo_rel, relp)] = hashlib.sha256(data).hexdigest()
+            if member and not os.environ.get("VERIF_NO_REPR"):
+                data = _repr_patch(member, relp.replace(os.sep, "/"), data)
+            if is_hook:
                 data = data + include_line(crate, relp).encode()
             if write_if_changed(dp, data):
                 changed += 1
@@ -175,7 +208,7 @@ def sync():
     for member, rel in CRATES.items():
         if member in NO_PLAIN:
             continue
-        changed += _copy_tree(os.path.join(REPO, rel), os.path.join(WS, member))
+        changed += _copy_tree(os.path.join(REPO, rel), os.path.join(WS, member), member=member)
         members.append(member)
     for crate, files in HOOKS.items():
         rel = CRATES[crate]
@@ -186,7 +219,7 @@ def sync():
             if not os.path.exists(hp):
                 write_if_changed(hp, "")
         changed += _copy_tree(os.path.join(REPO, rel), os.path.join(WS, "h_" + crate), rename=hpkg(crate),
-                              hooks=set(files), crate=crate, repo_rel=rel, hooked=hooked)
+                              hooks=set(files), crate=crate, repo_rel=rel, hooked=hooked, member=crate)
         members.append("h_" + crate)
     for d in sorted(os.listdir(WS)):
         if d.startswith("x_") and os.path.exists(os.path.join(WS, d, "Cargo.toml")):
